@@ -25,8 +25,8 @@ META = {
 
 CL = "rtr::client::Client::<Sock, Target>::"
 PDU = "rtr::pdu::"
-END = r"Try::branch\(read::\{closure#0\}\(__awaitee⟵Payload::read\(\$self\.sock\), .*\)↓Ready\.0\)↓Continue\.0↓Err\.0"
-PAY = r"Try::branch\(read::\{closure#0\}\(__awaitee⟵Payload::read\(\$self\.sock\), .*\)↓Ready\.0\)↓Continue\.0↓Ok\.0↓Some\.0"
+END = r"Try::branch\(read::\{closure#0\}\(__awaitee⟵Payload::read\([$^]self\.sock\), .*\)↓Ready\.0\)↓Continue\.0↓Err\.0"
+PAY = r"Try::branch\(read::\{closure#0\}\(__awaitee⟵Payload::read\([$^]self\.sock\), .*\)↓Ready\.0\)↓Continue\.0↓Ok\.0↓Some\.0"
 
 
 def run(ctx):
@@ -103,8 +103,9 @@ def run(ctx):
                "when the End-of-Data PDU carries timing values Client::%s stores them before returning the update" % meth, where=b.loc)
         # ---- the update returned is the one started with the right reset flag ------------
         starts = [c for c in b.calls() if c.name == "start" and (c.trait or "").endswith("PayloadTarget") and not b.is_cleanup(c.bb)]
-        oks = len(starts) == 1 and K.arg_renders(starts[0]) == ["$self.target", reset_flag]
-        want_rx = r"\w+⟵PayloadTarget::start\(\$self\.target, %s\)" % reset_flag      # whatever the local is called
+        # `self` is the captured receiver, read through a local copy (`$self`) or directly (`^self`)
+        oks = len(starts) == 1 and K.arg_renders(starts[0]) in (["$self.target", reset_flag], ["^self.target", reset_flag])
+        want_rx = r"\w+⟵PayloadTarget::start\([$^]self\.target, %s\)" % reset_flag      # whatever the local is called
         oks = oks and all(re.search(want_rx, r) for bi, r in upd if bi in upd_blocks)
         ctx.ob("R-FLOW", "Client::%s:target-started-with-reset=%s" % (meth, reset_flag), oks,
                "Client::%s starts the target update with reset=%s and returns that very update" % (meth, "true" if reset_flag == "1" else "false"),
